@@ -300,6 +300,14 @@ class MPContext(BaseMPContext, StandardBaseContext):
         """
         a = ctx.__class__()
         a.prec = ctx.prec
+        # functions such as zetazero, nzeros, backlunds and the
+        # Riemann-Siegel code reach the companion contexts through these
+        # references (the global mp gets them in mpmath/__init__.py)
+        a._mp = a
+        if hasattr(ctx, '_fp'):
+            a._fp = ctx._fp
+        if hasattr(ctx, '_iv'):
+            a._iv = ctx._iv
         return a
 
     # Several helper methods
